@@ -22,8 +22,8 @@ def clsConsumes : Class → Bool
 
 def atomConsumes : Atom → Bool
   | .str _ _ _ => true
-  | .cls neg c => !neg && clsConsumes c
-  | .range _ _ => false
+  | .cls _ c => clsConsumes c
+  | .range _ _ => true
 
 theorem consume_grows {text : Bytes} {d : Data} {n : Nat} (h : readAt text d.pos n ≠ []) :
     d.cur.length < (consumeD text d n).cur.length := by
@@ -43,65 +43,63 @@ theorem lit_grows {text : Bytes} {d d' : Data} {v : Bytes} {n c : Bool} (h : lit
       exact consume_grows (by intro h0; rw [h0] at h1; exact h1 rfl)
     · simp [h2] at h
 
-theorem range1_grows {text : Bytes} {d d' : Data} {lo hi : Bytes} (hlo : lo.length = 1) (hhi : hi.length = 1)
-    (hempty : inRange lo hi [] = false) (h : rangeD text lo hi false d = some d') :
-    d.cur.length < d'.cur.length := by
-  unfold rangeD at h
-  rw [hlo, hhi] at h
-  simp only [rangeLoopD, hlo] at h
-  split at h
-  · next hc =>
-    simp only [Option.some.injEq] at h
-    subst h
-    refine consume_grows ?_
-    intro h0
-    rw [h0, hempty] at hc
-    simp at hc
-  · simp at h
+/-- a range (either polarity) needs a character: whatever it matches is non-empty (fix f73d71e) -/
+theorem rangeLoop_grows {text : Bytes} {d d' : Data} {lo hi : Bytes} {n : Bool} :
+    ∀ k, rangeLoopD text lo hi n d k = some d' → d.cur.length < d'.cur.length := by
+  intro k
+  induction k with
+  | zero => intro h; simp [rangeLoopD] at h
+  | succ k ih =>
+    intro h
+    unfold rangeLoopD at h
+    split at h
+    · exact ih h
+    · next hne =>
+      split at h
+      · simp only [Option.some.injEq] at h
+        subst h
+        exact consume_grows (by intro h0; rw [h0] at hne; simp at hne)
+      · exact ih h
 
-theorem class_grows {text : Bytes} {d d' : Data} {c : Class} (hc : clsConsumes c = true)
-    (h : classD text c false d = some d') : d.cur.length < d'.cur.length := by
+theorem range_grows {text : Bytes} {d d' : Data} {lo hi : Bytes} {n : Bool} (h : rangeD text lo hi n d = some d') :
+    d.cur.length < d'.cur.length := rangeLoop_grows _ h
+
+theorem class_grows {text : Bytes} {d d' : Data} {c : Class} {neg : Bool} (hc : clsConsumes c = true)
+    (h : classD text c neg d = some d') : d.cur.length < d'.cur.length := by
   cases c <;> first | (simp [clsConsumes] at hc; done) | skip
   all_goals simp only [classD] at h
   · -- any
-    simp only [Bool.false_eq_true, if_false] at h
     split at h
     · simp at h
-    · next hne =>
-      simp only [Option.some.injEq] at h; subst h
-      exact consume_grows (by intro h0; rw [h0] at hne; simp at hne)
+    · split at h
+      · simp at h
+      · next hne =>
+        simp only [Option.some.injEq] at h; subst h
+        exact consume_grows (by intro h0; rw [h0] at hne; simp at hne)
   · -- whitespace
     split at h
     · simp at h
     · next hne =>
-      split at h
-      · simp only [Bool.false_eq_true, if_false, Option.some.injEq] at h; subst h
-        exact consume_grows (by intro h0; rw [h0] at hne; simp at hne)
-      · simp at h
-  · exact range1_grows rfl rfl (by decide) h
-  · exact range1_grows rfl rfl (by decide) h
-  · exact range1_grows rfl rfl (by decide) h
+      have hg : d.cur.length < (consumeD text d 1).cur.length :=
+        consume_grows (by intro h0; rw [h0] at hne; simp at hne)
+      split at h <;> split at h <;> simp at h <;> (subst h; exact hg)
+  · exact range_grows h
+  · exact range_grows h
+  · exact range_grows h
   · -- letter
     split at h
-    · next hin =>
-      simp only [Bool.false_eq_true, if_false, Option.some.injEq] at h; subst h
-      refine consume_grows ?_
-      intro h0
-      rw [h0] at hin
-      revert hin
-      decide
     · simp at h
+    · next hne =>
+      have hg : d.cur.length < (consumeD text d 1).cur.length :=
+        consume_grows (by intro h0; rw [h0] at hne; simp at hne)
+      split at h <;> split at h <;> simp at h <;> (subst h; exact hg)
 
 theorem atom_grows {text : Bytes} {d d' : Data} {a : Atom} (hc : atomConsumes a = true)
     (h : atomD text a d = some d') : d.cur.length < d'.cur.length := by
   cases a with
   | str n c s => exact lit_grows h
-  | cls n c =>
-    simp only [atomConsumes, Bool.and_eq_true, Bool.not_eq_true'] at hc
-    obtain ⟨hn, hcc⟩ := hc
-    subst hn
-    exact class_grows hcc h
-  | range lo hi => simp [atomConsumes] at hc
+  | cls n c => exact class_grows hc h
+  | range lo hi => exact range_grows h
 
 /-! ## static analysis: must-consume, guarded calls -/
 
